@@ -161,6 +161,9 @@ class Exec:
         w.stats.clear()
         w.clock = SimClock(self.rng_clock)
         w.clock.jump_prob = k.get("clock_jump", 0.0)
+        if k.get("clock_slow"):
+            # a fast machine / coarse clock: consecutive readings are equal or microseconds apart
+            w.clock.ticks = (0.0, 0.0, 1e-6, 1e-4)
         w.pool_rng = self.rng_pool
         w.pool_mode = k.get("pool", "serial")
         w.pool_workers = k.get("pool_workers", 2)
@@ -360,7 +363,7 @@ class Exec:
                 self._check_stat(st, fname, before, after)
                 if when == "after" and list(st.subjectnames) != after:
                     self.v("names", f"make_statistic after all workers returned lists {list(st.subjectnames)!r}, the file holds {after!r}")
-                elif when == "after" and self.plan.get("check_loader") and after:
+                if when == "after" and self.plan.get("check_loader") and after:
                     # the parent's own statistics object, judged like the loader's: the model is
                     # the text of the file it was built from
                     rows, err = self.data_rows(fname)
